@@ -8,23 +8,30 @@ parser path, assembled from RFC byte layouts without POX).  Enumerated families,
   byte    every byte position p x every replacement value of a small boundary set
           {0x00, 0xff, b^0x01, b^0x80, b+1} (quick and thorough), plus ALL 255 alternative values for the
           first 64 bytes (thorough)
-  pair    (thorough) every truncation length L x every corrupted byte position p < L x the boundary value
-          set - a superset of "truncation x one corrupted length/type byte" that needs no table of which
-          bytes are length/type fields
+  pair    (thorough) every truncation length L x every corrupted byte position p < L x {0x00, 0xff, b^0x01}
+          - a superset of "truncation x one corrupted length/type byte" that needs no table of which bytes
+          are length/type fields
+  fix-*   the same four families for the eth/ipv6/icmpv6 frames, from the IPv6 addresses on, with the IPv6
+          payload length and the ICMPv6 checksum repaired afterwards (icmpv6.parse drops a body whose
+          checksum is wrong, so plain corruption never reaches the ND / error-message parsers)
 
 Every mutant is
   1. parsed with ethernet(raw=m)                                              phase "parse"
-  2. walked along .next to the end (step counter)                              phase "walk"
+  2. walked along .next to the end (link counter)                              phase "walk"
   3. printed: str() of every header of the chain, then dump() of the top       phases "str", "dump"
   4. re-serialised with pack() (and dump() once more on the packed object)     phase "pack" ("dump")
-  5. wrapped in an ofp_packet_in (built, packed and unpacked with libopenflow_01), handed to a
-     pox.openflow.PacketIn event whose .parsed is read the way a handler does; that result is walked,
-     printed and packed as well                                                phases "packetin-*"
-Every phase runs under a line budget on pox/lib/packet/*.py (non-termination detector).
+  5. wrapped in an ofp_packet_in (built, packed and unpacked with libopenflow_01; phase "packetin"), handed to
+     a pox.openflow.PacketIn event whose .parsed is read the way a handler does; that result is walked,
+     printed and packed in the same way, under the same phase names (one defect, one key)
+Every phase runs under a step budget: backward jumps (loop iterations) executed inside the POX tree, counted
+with sys.monitoring (JumpBudget below; C15_GUARD=line switches to mc.engine.LineBudget on pox/lib/packet/*.py,
+6x slower, same verdicts).  A raising site is reported under the first phase of the case that reaches it
+(dump() calls str() of every header, some str() call pack()).
 
 Oracle clauses (violation key = C15:<clause>:...):
   raises:<phase>:<file>:<function>:<exception>   a phase raised; site = innermost frame inside the POX tree
-  nonterminating:<phase>:<file>:<function>       a phase exceeded the line budget; site = where it was spinning
+  raises:walk:<class>.next:<exception>           reading .next of a header raised
+  nonterminating:<phase>:<file>:<function>       a phase exceeded the step budget; site = the loop that was spinning
   chain:<class>.next:<type>                      a link of the chain is neither a packet_base, bytes nor None
   chain:too-long                                 more than MAX_CHAIN links (cycle)
   unparsed-raw:<class>:<what>                    a header with parsed == False did not keep its raw input
@@ -47,6 +54,7 @@ MAX_CHAIN = 32             # links; the deepest valid corpus chain has 7
 JUMP_BUDGET = 20000        # backward jumps (loop iterations) inside the POX tree per phase
 LINE_BUDGET = 200000       # C15_GUARD=line: `line` events in pox/lib/packet per phase
 FIRST = 64                 # thorough: all 255 alternatives for the first FIRST bytes
+PAIR_VALUES = 3            # thorough, truncation x corrupted byte: the first 3 of the boundary values (0x00, 0xff, b^0x01)
 SLICES_Q, SLICES_T = 2, 24 # work items per (family, frame)
 
 PKT_FILES = ("arp.py dhcp.py dns.py eap.py eapol.py ethernet.py gre.py icmp.py icmpv6.py igmp.py ipv4.py ipv6.py "
@@ -88,7 +96,7 @@ def cases (family, frame):
   elif family == "pair":
     for L in range(1, n):
       for p in range(L):
-        for v in small_values(frame[p]):
+        for v in small_values(frame[p])[:PAIR_VALUES]:
           yield (L, p, v)
   # structure-aware families: ICMPv6 is the one parser that refuses a body whose checksum is wrong, so
   # a corrupted ICMPv6 body only reaches the ND / error-message parsers when length and checksum fit
@@ -318,7 +326,7 @@ class Case (object):
     self.bad.append((clause, what))
 
   def guarded (self, phase, fn, *args):
-    """Run one phase under the line budget.  Returns (ok, value)."""
+    """Run one phase under the step budget.  Returns (ok, value)."""
     self.calls += 1
     lb = self.P.guard
     if self.budget: lb.budget = self.budget
@@ -580,7 +588,7 @@ def run (cfg):
               "pack()==input) digests; cases = distinct (family, frame, length, position, value) descriptors"
               % (len(C), sum(len(f) for f in C.values()),
                  "" if cfg.quick else "; all 255 alternative values for each of the first %d bytes; every truncation "
-                 "length x every corrupted position below it x the same value set" % FIRST,
+                 "length x every corrupted position below it x {0x00,0xff,b^0x01}" % FIRST,
                  sum(1 for f in C.values() if is_icmp6(f)),
                  LINE_BUDGET if GUARD == "line" else JUMP_BUDGET,
                  "traced lines of pox/lib/packet" if GUARD == "line" else "loop iterations (backward jumps) inside the POX tree"))
